@@ -464,6 +464,276 @@ theorem outLoop_spec : ∀ (rest pre : List (Tm × Bool)) (env : Env α) (acc : 
         simpa using hx
       · simpa using r'
 
+/-! ### the three parts of the body after the call of `self.sub.update` -/
+
+theorem exec_forEnum_list (i x : String) (it : E) (body : S) (env : Env α) (l : List (DV α))
+    (h : evalE call env it = .ok (.list l)) :
+    exec call fuel (.forEnum i x it false body) env =
+      forLoop (fun p env => setLoc x p.1 (setLoc i (.int p.2) env)) (exec call fuel body) l.zipIdx env := by
+  simp [exec, h]
+
+theorem exec_ret_loc (x : String) (env : Env α) (v : DV α) (h : getLoc x env = .ok v) :
+    exec call fuel (.ret (.loc x)) env = .ok (env, .ret v) := by
+  simp [exec, evalE, h]
+
+/-- the inlined `update` of the parent: `self.subtraction_output = input_list`, the loop, `samples = sample_result` -/
+theorem iaUpd_spec (habs : ∀ x : α, call "abs" [.val x] = .ok (.val (Val.abs x))) (c : Cmp) (d : ASig α) (env : Env α)
+    (hil : getLoc "update0$input_list" env = .ok (encSig d))
+    (hsr : getLoc "update0$sample_result" env = .ok (encSig ([] : ASig α)))
+    (hc : getLoc "self.comparison_op" env = .ok (.cmp c)) (hres : getLoc "abs" env = .error .key) :
+    ∃ env', (∀ tail, exec call fuel (.seq (.setLoc "self.subtraction_output" (.loc "update0$input_list"))
+          (.seq (.setLoc "update0$prev" .nan) (.seq (.forIn "update0$i" (.loc "update0$input_list") updLoopBody)
+            (.seq (.setLoc "samples" (.loc "update0$sample_result")) tail)))) env = exec call fuel tail env') ∧
+      getLoc "self.subtraction_output" env' = .ok (encSig d) ∧
+      Frame ("self.subtraction_output" :: "samples" :: updVars) env env' := by
+  have h1 : exec call fuel (.setLoc "self.subtraction_output" (.loc "update0$input_list")) env =
+      .ok (setLoc "self.subtraction_output" (encSig d) env, .none) := exec_setLoc call fuel (by simp [evalE, hil])
+  have h2 : exec call fuel (.setLoc "update0$prev" .nan) (setLoc "self.subtraction_output" (encSig d) env) =
+      .ok (setLoc "update0$prev" .nan (setLoc "self.subtraction_output" (encSig d) env), .none) :=
+    exec_setLoc call fuel (by simp [evalE])
+  generalize henv2 : setLoc "update0$prev" DV.nan (setLoc "self.subtraction_output" (encSig d) env) = env2 at h2
+  have g2 : ∀ k', k' ≠ "update0$prev" → k' ≠ "self.subtraction_output" → getLoc k' env2 = getLoc k' env := by
+    intro k' a b; rw [← henv2]; simp [a, b]
+  have so2 : getLoc "self.subtraction_output" env2 = .ok (encSig d) := by rw [← henv2]; simp
+  obtain ⟨env3, hx3, r3, f3⟩ := updLoop_spec call fuel habs c d env2 []
+    (by rw [g2 _ (by decide) (by decide)]; exact hc) (by rw [g2 _ (by decide) (by decide)]; exact hsr)
+    (by rw [g2 _ (by decide) (by decide)]; exact hres)
+  have h3 := exec_forIn_list call fuel "update0$i" (.loc "update0$input_list") updLoopBody env2 (d.map encSmp)
+    (by rw [evalE, g2 _ (by decide) (by decide)]; exact hil)
+  rw [hx3] at h3
+  have h4 : exec call fuel (.setLoc "samples" (.loc "update0$sample_result")) env3 =
+      .ok (setLoc "samples" (encSig ([] ++ d.map (fun p => (p.1, cmpOfDiff c p.2)))) env3, .none) :=
+    exec_setLoc call fuel (by simp [evalE, r3])
+  refine ⟨_, fun tail => by rw [exec_seq_ok _ _ h1, exec_seq_ok _ _ h2, exec_seq_ok _ _ h3, exec_seq_ok _ _ h4], ?_, ?_⟩
+  · rw [getLoc_setLoc_ne _ _ _ _ (by decide), f3 _ (by simp [updVars])]; exact so2
+  · intro k' hk'
+    have hk'' := hk'
+    simp only [updVars, List.mem_cons, List.not_mem_nil, or_false, not_or] at hk''
+    rw [getLoc_setLoc_ne _ _ _ _ hk''.2.1, f3 _ (by simp [updVars, hk''.2.2.1, hk''.2.2.2.1, hk''.2.2.2.2.1,
+      hk''.2.2.2.2.2]), g2 _ hk''.2.2.2.2.2 hk''.1]
+
+/-- the inlined `sat` of the parent up to its loop -/
+theorem iaSat_spec (habs : ∀ x : α, call "abs" [.val x] = .ok (.val (Val.abs x)))
+    (hlen : ∀ l : List (DV α), call "len" [.list l] = .ok (.int l.length)) (c : Cmp) (d : ASig α) (env : Env α)
+    (hso : getLoc "self.subtraction_output" env = .ok (encSig d))
+    (hc : getLoc "self.comparison_op" env = .ok (.cmp c)) (hres : getLoc "abs" env = .error .key)
+    (hresl : getLoc "len" env = .error .key) :
+    ∃ env', (∀ tail, exec call fuel (.seq (.setLoc "sat1$sample_result" .emptyList)
+          (.seq (.setLoc "sat1$input_list" (.loc "self.subtraction_output")) (.seq (.setLoc "sat1$prev" .nan)
+            (.seq (.forEnum "sat1$i" "sat1$in_sample" (.loc "sat1$input_list") false satLoopBody) tail)))) env =
+          exec call fuel tail env') ∧
+      getLoc "sat1$sample_result" env' = .ok (encB (satGo c none d)) ∧
+      Frame ("sat1$input_list" :: satAll) env env' := by
+  have h1 : exec call fuel (.setLoc "sat1$sample_result" .emptyList) env =
+      .ok (setLoc "sat1$sample_result" (.list []) env, .none) := exec_setLoc call fuel (by simp [evalE])
+  have h2 : exec call fuel (.setLoc "sat1$input_list" (.loc "self.subtraction_output"))
+      (setLoc "sat1$sample_result" (.list []) env) =
+      .ok (setLoc "sat1$input_list" (encSig d) (setLoc "sat1$sample_result" (.list []) env), .none) :=
+    exec_setLoc call fuel (by simp [evalE, hso])
+  have h3 : exec call fuel (.setLoc "sat1$prev" .nan)
+      (setLoc "sat1$input_list" (encSig d) (setLoc "sat1$sample_result" (.list []) env)) =
+      .ok (setLoc "sat1$prev" .nan (setLoc "sat1$input_list" (encSig d) (setLoc "sat1$sample_result" (.list []) env)),
+        .none) := exec_setLoc call fuel (by simp [evalE])
+  generalize henv3 : setLoc "sat1$prev" DV.nan (setLoc "sat1$input_list" (encSig d)
+    (setLoc "sat1$sample_result" (DV.list []) env)) = env3 at h3
+  have g3 : ∀ k', k' ≠ "sat1$prev" → k' ≠ "sat1$input_list" → k' ≠ "sat1$sample_result" →
+      getLoc k' env3 = getLoc k' env := by
+    intro k' a b c'; rw [← henv3]; simp [a, b, c']
+  have il3 : getLoc "sat1$input_list" env3 = .ok (.list (d.map encSmp)) := by rw [← henv3]; simp [encSig]
+  obtain ⟨env4, hx4, r4, f4⟩ := satLoop_spec call fuel habs hlen c (d.map encSmp) d 0 env3 [] none (by simp)
+    (by rw [g3 _ (by decide) (by decide) (by decide)]; exact hc) il3 (by rw [← henv3]; simp [encPrev])
+    (by rw [← henv3]; simp [encB, encSigP])
+    (by rw [g3 _ (by decide) (by decide) (by decide)]; exact hres)
+    (by rw [g3 _ (by decide) (by decide) (by decide)]; exact hresl)
+  have h4 := exec_forEnum_list call fuel "sat1$i" "sat1$in_sample" (.loc "sat1$input_list") satLoopBody env3
+    (d.map encSmp) (by rw [evalE]; exact il3)
+  have h4' : exec call fuel (.forEnum "sat1$i" "sat1$in_sample" (.loc "sat1$input_list") false satLoopBody) env3 =
+      .ok (env4, .none) := by rw [h4]; exact hx4
+  refine ⟨env4, fun tail => by rw [exec_seq_ok _ _ h1, exec_seq_ok _ _ h2, exec_seq_ok _ _ h3, exec_seq_ok _ _ h4'],
+    by simpa using r4, ?_⟩
+  intro k' hk'
+  have hk'' := hk'
+  simp only [satAll, List.mem_cons, List.not_mem_nil, or_false, not_or] at hk''
+  rw [f4 _ (by simp [satAll, hk''.2.1, hk''.2.2.1, hk''.2.2.2.1, hk''.2.2.2.2.1, hk''.2.2.2.2.2.1,
+    hk''.2.2.2.2.2.2]), g3 _ hk''.2.2.2.2.2.2 hk''.1 hk''.2.2.2.2.2.1]
+
+/-- from `sat_sample = …` on: output robustness with `out_vars` empty, `±inf` by the verdict -/
+theorem iaTail_spec (s : List (Tm × Bool)) (env : Env α)
+    (hs : getLoc "sat1$sample_result" env = .ok (encB s)) (hsem : getLoc "self.semantics" env = .ok (.int 1))
+    (hov : getLoc "self.out_vars" env = .ok (.list [])) :
+    ∃ env', exec call fuel iaTail env = .ok (env', .ret (encSig (s.map (fun p => (p.1, (infOf p.2 : α)))))) ∧
+      Frame ("sat_sample" :: outVars) env env' := by
+  have h1 : exec call fuel (.setLoc "sat_sample" (.loc "sat1$sample_result")) env =
+      .ok (setLoc "sat_sample" (encB s) env, .none) := exec_setLoc call fuel (by simp [evalE, hs])
+  have h2 : exec call fuel (.setLoc "out_sample" .emptyList) (setLoc "sat_sample" (encB s) env) =
+      .ok (setLoc "out_sample" (.list []) (setLoc "sat_sample" (encB s) env), .none) :=
+    exec_setLoc call fuel (by simp [evalE])
+  generalize henv2 : setLoc "out_sample" (DV.list []) (setLoc "sat_sample" (encB s) env) = env2 at h2
+  have g2 : ∀ k', k' ≠ "out_sample" → k' ≠ "sat_sample" → getLoc k' env2 = getLoc k' env := by
+    intro k' a b; rw [← henv2]; simp [a, b]
+  have ss2 : getLoc "sat_sample" env2 = .ok (.list (encBS s)) := by rw [← henv2]; simp [encB_eq]
+  have hrob : evalE call env2 robCond = .ok (.bool true) := by
+    simp [robCond, semIs, evalE, g2, hsem, hov, evalBin, isCmp, cmpDV_eq_int, Except.map, truthy]
+  obtain ⟨env3, hx3, r3, f3⟩ := outLoop_spec call fuel s [] env2 [] (by simpa using ss2)
+    (by rw [← henv2]; simp [encSig])
+  have h3 := exec_forEnum_list call fuel "i" "$elem_i" (.loc "sat_sample") outLoopBody env2 (encBS s)
+    (by rw [evalE]; exact ss2)
+  have h3' : exec call fuel outStmt env2 = .ok (env3, .none) := by
+    unfold outStmt
+    rw [exec_ite_bool call fuel _ _ _ _ _ hrob]
+    simp only [if_true]
+    rw [h3]; exact hx3
+  refine ⟨env3, ?_, ?_⟩
+  · unfold iaTail
+    rw [exec_seq_ok _ _ h1, exec_seq_ok _ _ h2, exec_seq_ok _ _ h3']
+    exact exec_ret_loc call fuel _ _ _ (by simpa using r3)
+  · intro k' hk'
+    have hk'' := hk'
+    simp only [outVars, List.mem_cons, List.not_mem_nil, or_false, not_or] at hk''
+    rw [f3 _ (by simp [outVars, hk''.2.1, hk''.2.2.1, hk''.2.2.2.1, hk''.2.2.2.2]), g2 _ hk''.2.2.2.2 hk''.1]
+
+/-- the locals (and `self.subtraction_output`) the body writes after the call of `self.sub.update` -/
+def iaVars : List String :=
+  ("self.subtraction_output" :: "samples" :: updVars) ++ ("sat1$input_list" :: satAll) ++ ("sat_sample" :: outVars)
+
+/-- the body after the call of `self.sub.update`, which has returned the difference signal `d` -/
+theorem iaRest_spec (habs : ∀ x : α, call "abs" [.val x] = .ok (.val (Val.abs x)))
+    (hlen : ∀ l : List (DV α), call "len" [.list l] = .ok (.int l.length)) (c : Cmp) (d : ASig α) (env : Env α)
+    (hil : getLoc "update0$input_list" env = .ok (encSig d))
+    (hsr : getLoc "update0$sample_result" env = .ok (encSig ([] : ASig α)))
+    (hc : getLoc "self.comparison_op" env = .ok (.cmp c)) (hsem : getLoc "self.semantics" env = .ok (.int 1))
+    (hov : getLoc "self.out_vars" env = .ok (.list [])) (hres : getLoc "abs" env = .error .key)
+    (hresl : getLoc "len" env = .error .key) :
+    ∃ env', exec call fuel iaRest env = .ok (env', .ret (encSig (iaOut c d))) ∧
+      getLoc "self.subtraction_output" env' = .ok (encSig d) ∧ Frame iaVars env env' := by
+  obtain ⟨env1, hx1, so1, f1⟩ := iaUpd_spec call fuel habs c d env hil hsr hc hres
+  obtain ⟨env2, hx2, r2, f2⟩ := iaSat_spec call fuel habs hlen c d env1 so1
+    (by rw [f1 _ (by simp [updVars])]; exact hc) (by rw [f1 _ (by simp [updVars])]; exact hres)
+    (by rw [f1 _ (by simp [updVars])]; exact hresl)
+  obtain ⟨env3, hx3, f3⟩ := iaTail_spec call fuel (satGo c none d) env2 r2
+    (by rw [f2 _ (by simp [satAll]), f1 _ (by simp [updVars])]; exact hsem)
+    (by rw [f2 _ (by simp [satAll]), f1 _ (by simp [updVars])]; exact hov)
+  refine ⟨env3, ?_, ?_, ?_⟩
+  · unfold iaRest iaSat
+    rw [hx1, hx2]
+    exact hx3
+  · rw [f3 _ (by simp [outVars]), f2 _ (by simp [satAll])]; exact so1
+  · intro k' hk'
+    simp only [iaVars, List.mem_append, not_or] at hk'
+    rw [f3 _ hk'.2, f2 _ hk'.1.2, f1 _ hk'.1.1]
+
 end loops
 
+theorem call_len (fuel k : Nat) (l : List (DV α)) :
+    callAt Gen.DenseOn.fns fuel k "len" [.list l] = .ok (.int l.length : DV α) := by
+  rw [callAt_builtin _ _ _ "len" _ rfl]; simp [builtin]
+
+/-- the object `o` is the interface-aware `PredicateOperation(c, OUTPUT_ROBUSTNESS, in_vars, [])` whose subtraction object is
+    in the state `st` -/
+def IAPredRel (c : Cmp) (st : BinSt α) (o : DV α) : Prop :=
+  ∃ store sub, o = .obj "IAPredicateOperation" store ∧
+    store.lookup "self.sub" = some sub ∧ BinRel "SubtractionOperation" st sub ∧
+    store.lookup "self.comparison_op" = some (.cmp c) ∧
+    (∃ d : ASig α, store.lookup "self.subtraction_output" = some (encSig d)) ∧
+    store.lookup "self.semantics" = some (.int 1) ∧
+    (∃ vs : List (DV α), store.lookup "self.in_vars" = some (.list vs)) ∧
+    store.lookup "self.out_vars" = some (.list []) ∧
+    SelfKeys store
+
+/-- the locals a method `update(self, sample_left, sample_right)` starts with: `len` is not one of them -/
+theorem env0_len (store : Env α) (hk : SelfKeys store) (x y : DV α) :
+    getLoc "len" (store ++ [("sample_left", x), ("sample_right", y)]) = .error .key := by
+  rw [getLoc_append_right (lookup_none_of_selfKeys store hk _ (by simp [isSelfKey]))]; simp
+
 end Rtamt.Py.DnOn.GOnIA
+
+/-! ## main theorems: the interface-aware `PredicateOperation` -/
+
+namespace Rtamt.Py.DnOn
+open Rtamt Val Rtamt.Dense Rtamt.Dense.Alg Rtamt.Dense.AlgOn GOnBin GOnIA
+
+set_option linter.unusedSectionVars false
+set_option linter.unusedVariables false
+set_option linter.unusedSimpArgs false
+
+variable {α : Type} [Val α]
+
+/-- the mirror clause: what `stepOn` does at a node `.bin (.predSat c)` once the operands have been stepped -/
+def iaPredUpdate (c : Cmp) (st : BinSt α) (sl sr : ASig α) : Except PyErr (BinSt α × ASig α) := do
+  let (st', d) ← binUpdate (fun a b => Val.sub a b) st sl sr
+  let both := dedupGoK (fun (x : α × Bool) => x.1) none (d.map (fun p => (p.1, (cmpOfDiff c p.2, satOfDiff c p.2))))
+  pure (st', both.map (fun p => (p.1, if p.2.2 then Val.pinf else Val.ninf)))
+
+theorem stepOn_predSat (cfg : DCfg) (inp : String → ASig α) (c : Cmp) (φ ψ : F α) (st : BinSt α) (l r : OnSt α) :
+    stepOn cfg inp (.bin (.predSat c) φ ψ) (.bin st l r) = (do
+      let (l', sl) ← stepOn cfg inp φ l
+      let (r', sr) ← stepOn cfg inp ψ r
+      let (st', out) ← iaPredUpdate c st sl sr
+      pure (.bin st' l' r', out)) := by
+  rw [stepOn]
+  cases h1 : stepOn cfg inp φ l with
+  | error e => rfl
+  | ok a =>
+      cases h2 : stepOn cfg inp ψ r with
+      | error e => rfl
+      | ok b =>
+          simp only [ok_bind, iaPredUpdate]
+          cases h3 : binUpdate (fun a b => Val.sub a b) st a.2 b.2 with
+          | error e => rfl
+          | ok r => rfl
+
+/-- what the TRANSLATED class computes: as `iaPredUpdate`, with the verdict `satOn` of the online `sat()` (for `!=`:
+    `False if d == 0 else True`) in the place of `satOfDiff` (`abs(d) > 0`) -/
+def iaPredUpdateOn (c : Cmp) (st : BinSt α) (sl sr : ASig α) : Except PyErr (BinSt α × ASig α) := do
+  let (st', d) ← binUpdate (fun a b => Val.sub a b) st sl sr
+  pure (st', iaOut c d)
+
+/-- the two agree when the two readings of the verdict agree on the difference signal (for every operator but `!=` they are
+    the same function) -/
+theorem iaPredUpdateOn_eq (c : Cmp) (st : BinSt α) (sl sr : ASig α)
+    (hsat : ∀ st' d, binUpdate (fun a b => Val.sub a b) st sl sr = .ok (st', d) →
+      ∀ p ∈ d, satOn c p.2 = satOfDiff c p.2) :
+    iaPredUpdateOn c st sl sr = iaPredUpdate c st sl sr := by
+  unfold iaPredUpdateOn iaPredUpdate
+  cases h : binUpdate (fun a b => Val.sub a b) st sl sr with
+  | error e => rfl
+  | ok r =>
+      obtain ⟨st', d⟩ := r
+      simp only [ok_bind, pure_eq_ok]
+      rw [iaOut_eq c d (hsat st' d h)]
+
+/-- `PredicateOperation(c, Semantics.OUTPUT_ROBUSTNESS, in_vars, [])` of the interface-aware package: the nested
+    `SubtractionOperation()` is in the initial state -/
+theorem gen_iapred_init (fuel k : Nat) (c : Cmp) (vs : List (DV α)) :
+    ∃ o : DV α, callAt Gen.DenseOn.fns fuel (k + 2) "IAPredicateOperation.__init__"
+        [.obj "IAPredicateOperation" [], .cmp c, .int 1, .list vs, .list []] = .ok (.list [o, .none]) ∧
+      IAPredRel c {} o := by
+  obtain ⟨sub, hsub, hrel⟩ := gen_bin_init (α := α) fuel k "SubtractionOperation" initClass_Subtraction
+  rw [callAt_fn _ _ _ _ Gen.DenseOn.IAPredicateOperation_init _ rfl]
+  have hx : exec (callAt (α := α) Gen.DenseOn.fns fuel (k + 1)) fuel Gen.DenseOn.IAPredicateOperation_init.body
+      ([] ++ (Gen.DenseOn.IAPredicateOperation_init.params.drop 1).zip [DV.cmp c, .int 1, .list vs, .list []]) =
+      .ok (setLoc "self.out_vars" (.list []) (setLoc "self.in_vars" (.list vs) (setLoc "self.semantics" (.int 1)
+        (setLoc "self.subtraction_output" (.list []) (setLoc "self.comparison_op" (.cmp c)
+          (setLoc "self.sub" sub [("comparison_op", .cmp c), ("semantics", .int 1), ("in_vars", .list vs),
+            ("out_vars", .list [])]))))), .none) := by
+    rw [IA_init_body]
+    show exec _ fuel iaInit [("comparison_op", .cmp c), ("semantics", .int 1), ("in_vars", .list vs),
+      ("out_vars", .list [])] = _
+    unfold iaInit
+    rw [GOnBin.exec_seq_ok _ fuel (exec_new0_ok _ fuel "self.sub" "SubtractionOperation" _ sub .none hsub)]
+    simp [exec, evalE]
+  refine ⟨_, runFn_method_none _ fuel _ rfl "IAPredicateOperation" [] [.cmp c, .int 1, .list vs, .list []] rfl _ hx,
+    _, sub, rfl, ?_, hrel, ?_, ⟨[], ?_⟩, ?_, ⟨vs, ?_⟩, ?_, selfKeys_filter _⟩
+  all_goals (rw [lookup_filter_self _ _ (by simp [isSelfKey])]; exact getLoc_ok_iff.mp (by simp [encSig]))
+
+/-- the same through `construct` (call depth `depth = 7`): what `initOnG` builds at a node `.bin (.predSat c)` -/
+theorem gen_iapred_construct (fuel : Nat) (c : Cmp) (vs : List (DV α)) :
+    ∃ o : DV α, construct fuel "IAPredicateOperation" [.cmp c, .int 1, .list vs, .list []] = .ok o ∧
+      IAPredRel c {} o := by
+  obtain ⟨o, ho, hrel⟩ := gen_iapred_init (α := α) fuel 5 c vs
+  refine ⟨o, ?_, hrel⟩
+  have hd : (depth : Nat) = 5 + 2 := rfl
+  have hn : ("IAPredicateOperation" ++ ".__init__" : String) = "IAPredicateOperation.__init__" := by decide
+  simp only [construct, hd, hn, ho, ok_bind, pure_eq_ok]
+
+end Rtamt.Py.DnOn
